@@ -32,6 +32,8 @@ export const STATEMENTS = {
   spanIdentChild: (N) => `export const ${N} = () => <span>{g0}</span>;`,
   memberHtmlTag: (N) => `import * as ${N}_ns from "probe:ns2";\nexport const ${N} = () => <${N}_ns.span>{f0()}</${N}_ns.span>;`,
   memberHtmlTagIdentChild: (N) => `import * as ${N}_ns from "probe:ns2";\nexport const ${N} = () => <${N}_ns.div>{g0}</${N}_ns.div>;`,
+  // (TSX, resolveType on) a typed defineComponent call: the component it evaluates to carries the derived options
+  dcTyped: (N) => `import { defineComponent } from "vue";\nconst ${N}_C = defineComponent((props: { msg: string; n?: number }) => () => <div>{props.msg}</div>);\nexport const ${N} = () => ${N}_C;`,
   reassignTwiceInner: (N, inner = '') => `export function ${N}(cell = "prev") {\n  ${inner.before ?? ''}\n  cell = <A0>{cell}</A0>;\n  cell = <B0>{cell}</B0>;\n  ${inner.after ?? ''}\n  return cell;\n}`,
   reassignParamInner: (N, inner = '') => `export function ${N}(cell = "prev") {\n  ${inner.before ?? ''}\n  cell = <A0>{cell}</A0>;\n  ${inner.after ?? ''}\n  return cell;\n}`,
   slotTempInner: (N, inner = '') => `export function ${N}() {\n  ${inner.before ?? ''}\n  const r = <A0>{f0()}</A0>;\n  ${inner.after ?? ''}\n  return r;\n}`,
@@ -106,10 +108,12 @@ export function* generate({ tier, seed }) {
     const srcs = names.map((s, i) => STATEMENTS[s](`s${i}`, innerOf(i)));
     const alone = names.map((s, i) => compose([STATEMENTS[s](`s${i}`, {})]));
     const composed = compose([...pre.map((d, i) => DISTRACTORS[d](`p${i}`)), ...srcs.flatMap((s, i) => (i === 0 ? [s] : [DISTRACTORS[suf[0] ?? 'none'](`m${i}`), s])), ...suf.map((d, i) => DISTRACTORS[d](`q${i}`))]);
+    const typed = names.includes('dcTyped');
+    if (typed) opts = { ...opts, resolveType: true };
     const variants = [{ vid: 'composed', src: composed, options: opts }];
     names.forEach((s, i) => variants.push({ vid: `alone${i}`, src: alone[i], options: opts }));
     return {
-      gid: `C10-${n++}`, syntax: 'jsx', spec: { env: ENV, names, thunks: names.map((_, i) => `s${i}`) },
+      gid: `C10-${n++}`, syntax: typed ? 'tsx' : 'jsx', spec: { env: ENV, names, thunks: names.map((_, i) => `s${i}`) },
       feature: `${names.join('+')}|pre=${pre.join('+')}|suf=${suf.join('+')}`, variants,
     };
   };
@@ -128,7 +132,7 @@ export function* generate({ tier, seed }) {
   for (let i = 0; i < nPairs; i++) {
     const a = rng.pick(stmts); let b = rng.pick(stmts);
     // two statements that declare the same module-level names cannot coexist
-    const clash = (x, y) => (x === y) || (['identChildNamedA'].includes(x) && ['identChildNamedA'].includes(y)) || (x === 'underscoreFragment' && y === 'underscoreFragment') || (x === 'keepAliveByName' && y === 'keepAliveByName');
+    const clash = (x, y) => (x === y) || (['identChildNamedA'].includes(x) && ['identChildNamedA'].includes(y)) || (x === 'underscoreFragment' && y === 'underscoreFragment') || (x === 'keepAliveByName' && y === 'keepAliveByName') || (x === 'dcTyped' && y === 'dcTyped');
     if (clash(a, b)) continue;
     const pre = []; const suf = [];
     for (let k = rng.int(3); k > 0; k--) pre.push(rng.pick(ds));
